@@ -91,8 +91,8 @@ WaMicro(s, t) ==
                       [fr EXCEPT !.pc = IF M[f].ts # 0 THEN "FuTscInc" ELSE "_c3", !.q = Order(f)])
        [] P = <<"comb", "_c3">> ->    \* input.then(callback, kImmediateInvoker) for the next input
             IF fr.q = <<>> THEN DropOwner(Goto(s, t, "_pop"), t, f)      \* the local `shared` dies
-            ELSE LET i == fr.q[1] IN
-                 Push(SetTop(s, t, [fr EXCEPT !.pc = "_c4", !.q = Tail(fr.q), !.g = M[f].ys[i]]), t,
+            ELSE LET i == fr.q[1] IN      \* (the callback lambda captures the shared_ptr: one more owner)
+                 Push(SetTop([s EXCEPT !.C[f].own = @ + 1], t, [fr EXCEPT !.pc = "_c4", !.q = Tail(fr.q), !.g = M[f].ys[i]]), t,
                       ThenFrame(M[f].ins[i], M[f].ys[i]))
        [] P = <<"comb", "_c4">> -> Push(Goto(s, t, "_c3"), t, DecRefFrame(fr.g))   \* the Future<void> then() returned dies
        [] P = <<"comb", "_pop">> -> Pop(s, t)
